@@ -361,6 +361,9 @@ func init() {
 			}
 			return tuple{int64(0), false}
 		},
+		"vTimerResets": func(w *Worker, fr *frame, fn *ssa.Function, args []value) value {
+			return w.sched.timerResets
+		},
 		"vTimersCreated": func(w *Worker, fr *frame, fn *ssa.Function, args []value) value {
 			return len(w.sched.timers)
 		},
@@ -1027,6 +1030,7 @@ func init() {
 			panic(targetPanic{w.runtimeError("time: Reset called on uninitialized Timer")})
 		}
 		w.sched.point(fr.g, "timer-reset")
+		w.sched.timerResets++
 		was := t.armed
 		t.armed = true
 		// Go 1.23 semantics: Reset drains a stale value from a synchronous timer channel
